@@ -13,6 +13,7 @@ import GoguVerif.Kinds.C12
 import GoguVerif.Kinds.C13
 import GoguVerif.Kinds.C14
 import GoguVerif.Kinds.C15
+import GoguVerif.Kinds.C16
 /-!
 # The compiled driver
 
@@ -43,6 +44,7 @@ def kindOfBase (name : String) : Option Kind :=
   | "c13" => some Kinds.C13.kind
   | "c14" => some Kinds.C14.kind
   | "c15" => some Kinds.C15.kind
+  | "c16" => some Kinds.C16.kind
   | "after" => some Kinds.Funcs.afterKind
   | "before" => some Kinds.Funcs.beforeKind
   | "once" => some Kinds.Funcs.onceKind
